@@ -22,6 +22,8 @@ def check(model, R, tier):
     byname = {o.qual: o for o in ops}
     from sa.rules_defn import check_fused
     check_fused(model, R, 'C14')
+    from sa.rules_flags import check_presence
+    check_presence(model, R, 'C14')
     # ---- operator identities (a - b, a / b, reflected forms, neg): shared with C05
     sub = _Sub(R)
     check_operators(model, sub)
